@@ -55,6 +55,16 @@ def time_rule(ctx, rule_id, class_qual, extra_regex_fn=None, floor=10):
     return r
 
 
+def _resolved_match(fn, stmt_pattern, st, value_patterns):
+    '''st matches stmt_pattern and its value _V -- with once-assigned pure locals replaced by their values -- is one of the values'''
+    from .common import resolve_locals
+    m = pm.match(stmt_pattern, st)
+    if m is None:
+        return False
+    v = resolve_locals(fn, m['_V'])
+    return any(pm.match(vp, v) is not None for vp in value_patterns) or any(pm.match(vp, m['_V']) is not None for vp in value_patterns)
+
+
 def endpos_rule(ctx, rule_id, class_qual, floor):
     '''every token rule sets t.endlexpos = t.lexpos + len(t.value) on every path before returning'''
     repo = ctx.repo
@@ -75,12 +85,13 @@ def endpos_rule(ctx, rule_id, class_qual, floor):
         for p in paths:
             good = False
             for n, _ in p:
-                if n.kind == 'stmt' and pm.match('%s.endlexpos = %s.lexpos + len(%s.value)' % (tp, tp, tp), n.ast) is not None:
+                if n.kind == 'stmt' and _resolved_match(t.fn, '%s.endlexpos = _V' % tp, n.ast, ['%s.lexpos + len(%s.value)' % (tp, tp),
+                                                                                               'len(%s.value) + %s.lexpos' % (tp, tp)]):
                     good = True
                 elif n.kind == 'stmt' and good and isinstance(n.ast, ast.Assign) and \
                         any(src(x).startswith('%s.value' % tp) or src(x) == '%s.endlexpos' % tp for x in n.ast.targets):
-                    good = src(n.ast.targets[0]) == '%s.endlexpos' % tp and pm.match(
-                        '%s.endlexpos = %s.lexpos + len(%s.value)' % (tp, tp, tp), n.ast) is not None
+                    good = src(n.ast.targets[0]) == '%s.endlexpos' % tp and _resolved_match(
+                        t.fn, '%s.endlexpos = _V' % tp, n.ast, ['%s.lexpos + len(%s.value)' % (tp, tp), 'len(%s.value) + %s.lexpos' % (tp, tp)])
             ok = ok and good
         r.check(ok, 't_%s sets endlexpos = lexpos + len(value) on all %d returning paths' % (t.name, len(paths)), t.fn,
                 construct='%s.t_%s' % (class_qual, t.name), key='endlexpos',
@@ -116,11 +127,9 @@ def lineno_rule(ctx, rule_id, class_qual, floor):
             for n, _ in p:
                 if n.kind != 'stmt':
                     continue
-                for pat in pats:
-                    m = pm.match(pat, n.ast)
-                    if m and isinstance(m['_NL'], ast.Constant) and m['_NL'].value == '\n':
-                        good = True
-                if only_nl and pm.match('%s.lexer.lineno += len(%s.value)' % (tp, tp), n.ast) is not None:
+                if _resolved_match(t.fn, '%s.lexer.lineno += _V' % tp, n.ast, ["%s.value.count('\\n')" % tp]):
+                    good = True
+                if only_nl and _resolved_match(t.fn, '%s.lexer.lineno += _V' % tp, n.ast, ['len(%s.value)' % tp]):
                     good = True
             ok = ok and good
         r.check(ok, 't_%s (regex can match a newline) adds its newline count to lexer.lineno' % t.name, t.fn,
